@@ -59,6 +59,7 @@ type Node struct {
 	Default string     `json:"default,omitempty"`
 	Writes  []string   `json:"writes,omitempty"`  // declared result names (olive:results)
 	Outputs []string   `json:"outputs,omitempty"` // declared data outputs (olive:dataOutput name)
+	Inputs  []string   `json:"inputs,omitempty"`  // declared data inputs (olive:dataInput name=targetRef)
 	Scope   string     `json:"scope,omitempty"`   // id of the enclosing sub-process ("" = process)
 	Events  []EventDef `json:"events,omitempty"`
 	Par     bool       `json:"par,omitempty"`  // parallelMultiple
@@ -322,7 +323,7 @@ func (g *Graph) renderScope(b *strings.Builder, scope, ind string) {
 		case Task:
 			tag := taskTag(n)
 			fmt.Fprintf(b, `%s<bpmn:%s id="%s" name="%s">`+"\n", ind, tag, n.ID, n.ID)
-			if len(n.Writes) > 0 || len(n.Outputs) > 0 || n.Retries != 0 || len(n.Props) > 0 || len(n.Headers) > 0 {
+			if len(n.Writes) > 0 || len(n.Outputs) > 0 || len(n.Inputs) > 0 || n.Retries != 0 || len(n.Props) > 0 || len(n.Headers) > 0 {
 				fmt.Fprintf(b, "%s  <bpmn:extensionElements>\n", ind)
 				if n.Retries != 0 {
 					fmt.Fprintf(b, `%s    <olive:taskDefinition type="service" retries="%d"/>`+"\n", ind, n.Retries)
@@ -347,6 +348,9 @@ func (g *Graph) renderScope(b *strings.Builder, scope, ind string) {
 						fmt.Fprintf(b, `%s      <olive:field name="%s" type="integer"/>`+"\n", ind, w)
 					}
 					fmt.Fprintf(b, "%s    </olive:results>\n", ind)
+				}
+				for _, o := range n.Inputs {
+					fmt.Fprintf(b, `%s    <olive:dataInput name="%s" targetRef="%s"/>`+"\n", ind, o, o)
 				}
 				for _, o := range n.Outputs {
 					fmt.Fprintf(b, `%s    <olive:dataOutput name="%s" targetRef="%s"/>`+"\n", ind, o, o)
